@@ -276,6 +276,16 @@ def rule_widening(ctx):
             d = T.kw(v, 'dtype') or (v[2][1] if len(v[2]) > 1 else None)
             R = {('name', 'float'): 'f', ('name', 'object'): 'O', ('const', 'U'): 'U', ('name', 'str'): 'U', ('name', 'complex'): 'c',
                  ('name', 'int'): 'i', ('const', 'O'): 'O', ('const', 'f'): 'f'}.get(d)
+            if R is None and d is not None and d[0] == 'attr' and d[2] == 'dtype' and T.derives_from(d[1], NEWVAL):
+                # the dtype of the assigned value itself: same kind as b but of unknown (possibly narrower) width,
+                # e.g. float16/float32: it can hold the assigned values, not necessarily the array's own
+                if a != b:
+                    ctx.violated('R4', fi, 'array kind %s <- assigned kind %s' % (a, b),
+                                 'the array is converted to the dtype of the assigned value (%s), whose width is unknown (float16/32, int8...): '
+                                 'existing %s-kind cells may be truncated; the widening must target a dtype that holds both (float / object)'
+                                 % (T.show(d), a), node=ev.paths[0].node)
+                    continue
+                R = a
             if R is None:
                 ctx.undecide('R4', 'unknown target dtype %s' % T.show(d))
                 continue
